@@ -2,7 +2,7 @@
 From Coq Require Import ZArith List Lia Permutation.
 From EG Require Import Num.Num Num.RNum Lib.Vec Model.Types Model.TolMap Model.Curve Model.MeshTopo Model.Section.
 From Coq Require Import Reals.
-From EG Require Import Model.Frames Proofs.MeshChains Proofs.Section Proofs.SectionGeom.
+From EG Require Import Model.Frames Proofs.Frames Proofs.MeshChains Proofs.Section Proofs.SectionGeom.
 Import ListNotations.
 
 (* engeom's assembly of parry's polyline never fails or hangs: chaining terminates on every list of index pairs and uses
@@ -42,3 +42,10 @@ Theorem C13_split_triangle_area : forall (a b c : @V3 RNum) (s t : R), (0 <= s <
   (tri_area a x y + tri_area x b c + tri_area x c y = tri_area a b c)%R.
 Proof. exact split_triangle_area. Qed.
 Print Assumptions C13_split_triangle_area.
+
+(* the cutting plane taken from a station of a guide curve (CurveStation3::plane: normal = the station's direction, through the
+   station's point) contains that point - wherever on its edge the station lies, not the edge's start vertex *)
+Theorem C13_station_plane : forall (s : station (@VO3 RNum)),
+  plane_signed (plane_from_np (st_dir (@VO3 RNum) s) (st_point (@VO3 RNum) s)) (st_point (@VO3 RNum) s) = 0%R.
+Proof. intros s. apply plane_np_contains. Qed.
+Print Assumptions C13_station_plane.
